@@ -86,6 +86,11 @@ package updog
 //@                 ==> old(c.lruList.stamp[c.entries[k2]]) < old(c.lruList.stamp[c.entries[k3]])
 //@     invariant forall k uint64 :: (k in c.entries) ==> (k in old(c.entries)) || k == key
 //@     decreases rcard(c.lruList.members)
+//@   assert after PushFront: pushed: !($r in old(c.lruList.members)) && item($r) == item && sum(old(c.lruList.members), costmap()) == old(c.curSize)
+//@              && costmap()[$r] == sizeBytes(bm.view) + lruCacheItemSize + listElementSize
+//@   assert before delete: shrink: c.curSize + item.size + lruCacheItemSize + listElementSize <= old(c.curSize - oldcost(c, key)) + newcost(bm)
+//@   assert after Back: evicted_cost: ($r in c.lruList.members) && costmap()[$r] == item($r).size + lruCacheItemSize + listElementSize
+//@              && 0 <= costmap()[$r] && costmap()[$r] <= c.curSize
 
 // ---------------------------------------------------------------------------------------------------------------
 // Cache interface (C03/C04): closed world of cache implementations — nullCache and LRUCache.
